@@ -14,6 +14,7 @@ DecLeaf(leaf, p) ==
   IF leaf.ty = "col" THEN leaf                                            \* re-wrapped by wrapInColumn whatever it looks like
   ELSE IF leaf.ty = "str" THEN
          [leaf EXCEPT !.op = IF p.slashed THEN "REGEXP" ELSE IF p.has_wild THEN "WILD" ELSE "LIT"]
+  ELSE IF leaf.ty = "float" /\ leaf.v = "-0" THEN [leaf EXCEPT !.ty = "int", !.v = "0"]   \* -0.0 is written as -0, Atoi reads 0
   ELSE IF leaf.ty = "float" /\ p.intvalued THEN [leaf EXCEPT !.ty = "int"] \* 5.0 is written as 5 and read as an int
   ELSE leaf
 
